@@ -15,10 +15,106 @@ package ldap
 
 import (
 	"bufio"
+	"bytes"
 	"crypto/tls"
 	"errors"
+	"io"
 	"net"
+
+	ber "github.com/go-asn1-ber/asn1-ber"
 )
+
+// an LDAPMessage envelope larger than this is refused
+const maxMessageSize = 1 << 20
+
+// readPacket reads one LDAPMessage.  The ber library allocates every declared length
+// before it reads the content and calls itself once per constructed value, so the
+// envelope is read here with a size limit and its structure is checked before the
+// library sees it.
+func readPacket(r *bufio.Reader) (*ber.Packet, error) {
+	hdr, err := r.Peek(2)
+	if err != nil {
+		return nil, err
+	}
+	if hdr[0]&0x1f == 0x1f {
+		return nil, errors.New("ldap: high tag number in message envelope")
+	}
+	n, l := 2, int(hdr[1])
+	if l == 0x80 {
+		return nil, errors.New("ldap: indefinite length (RFC 4511, 5.1)")
+	}
+	if l > 0x80 {
+		k := l & 0x7f
+		if k > 4 {
+			return nil, errors.New("ldap: message too large")
+		}
+		if hdr, err = r.Peek(2 + k); err != nil {
+			return nil, err
+		}
+		l = 0
+		for _, c := range hdr[2:] {
+			l = l<<8 | int(c)
+		}
+		n += k
+	}
+	if l > maxMessageSize {
+		return nil, errors.New("ldap: message too large")
+	}
+	buf := make([]byte, n+l)
+	if _, err := io.ReadFull(r, buf); err != nil {
+		return nil, err
+	}
+	if !tlvLengthsFit(buf, 0) {
+		return nil, errors.New("ldap: malformed BER")
+	}
+	return ber.ReadPacket(bytes.NewReader(buf))
+}
+
+// tlvLengthsFit reports whether b is a sequence of BER values in definite form whose
+// declared lengths - recursively for constructed values - stay inside their container.
+// The ASN.1 library allocates the declared length of a value before it reads it, so a
+// length of 2^38 in a seven byte packet would otherwise end the process (out of memory).
+func tlvLengthsFit(b []byte, depth int) bool {
+	if depth > 32 {
+		return false
+	}
+	for len(b) > 0 {
+		i := 1
+		if b[0]&0x1f == 0x1f { // high tag number form
+			for i < len(b) && b[i]&0x80 != 0 {
+				i++
+			}
+			i++
+		}
+		if i >= len(b) {
+			return false
+		}
+		l := int(b[i])
+		i++
+		if l == 0x80 { // indefinite form: used neither by SNMP nor by LDAP
+			return false
+		}
+		if l > 0x80 {
+			n := l & 0x7f
+			if n > 4 || i+n > len(b) {
+				return false
+			}
+			l = 0
+			for _, c := range b[i : i+n] {
+				l = l<<8 | int(c)
+			}
+			i += n
+		}
+		if l > len(b)-i {
+			return false
+		}
+		if b[0]&0x20 != 0 && !tlvLengthsFit(b[i:i+l], depth+1) {
+			return false
+		}
+		b = b[i+l:]
+	}
+	return true
+}
 
 type Conn struct {
 	con net.Conn
